@@ -1,6 +1,21 @@
 """Texts of MANIFEST.json checks: (level text, level note, technique, DESIGN section)."""
 T = "machine-checked proof (Lean 4) + regenerated facts + model/implementation correspondence"
 TEXT = {
+ "C10": ("Lean theorems: the r||s codec is exact (decode(encode(r,s)) = (r,s) for all r,s below 256^n), has the registered lengths 64/96/132, refuses any other length and oversize values, and is injective (any changed bit changes (r,s)); "
+         "curve and hash tables regenerated from the source = RFC 9053. Library signatures verified by the Lean ECDSA/Ed25519 reference (and vice versa for verdicts on every mutation), Ed25519 byte-identical, keys in derived/exported/compressed form",
+         "signature correctness/unforgeability and the group law are not theorems", T, "7.10"),
+ "C14": ("Lean theorems on the encoding logic: leading zero octets do not change a coordinate, compressed x handled at curve length, private remote refused, ECDH never panics for any pair of keys; curve table regenerated. "
+         "Both directions of the library agree with each other and with the Lean scalar multiplication / X25519 ladder on key pairs incl. leading-zero coordinates, four public-key encodings, and invalid remotes (off-curve, other curve, low order)",
+         "group law (symmetry) assumed, cross-checked by the Lean curve arithmetic", T, "7.14"),
+ "C15": ("Lean theorems: public keys derived from Ed25519/ECDSA private keys and the key any verifier reports contain no private parameter; embedded coordinates compared as integers (padded forms accepted), mismatch refused; "
+         "emitted EC2 coordinates have the curve's byte length. Derivation / compression / verifier-key dumps compared byte for byte with the model over keys with leading-zero coordinates in all forms",
+         "that the derived point is the right one is curve arithmetic: Lean reference vs Go, not a theorem", T, "7.15"),
+ "C16": ("Lean theorems: per-call gate iff (list empty or contains the operation) for all lists and all seven operations, evaluated on the key_ops held at call time (narrowing takes effect); construction refuses any operation outside the family's whitelist "
+         "(whitelists regenerated from the CheckKey skeletons); derived public keys carry only public-side operations; representations Ops/[]int/[]any agree. Malformed key_ops: counter-example proved, replayed, listed as known finding",
+         "known finding D9 (uninterpretable key_ops lift the restriction)", T, "7.16"),
+ "C17": ("Lean theorems: the registry regenerated from register.go is exactly the 28 registrations of 24 algorithms without duplicates; dispatch depends only on (kty, alg, crv); defaults when alg is absent; nil / unregistered fail; "
+         "accessors are insensitive to the Go integer kinds and slice types a decoder produces; the implementation obtained has the tag / nonce sizes of the key's algorithm; key-id look-up is exact. Correspondence on key.info / key.factory / impl.* / sig.*",
+         "JSON/text forms wrap the same CBOR bytes in hex; exercised through the CBOR path", T, "7.17"),
  "C01": ("Lean theorems: for all six kinds MarshalCBOR's output is decoded back to the same wire array (tag/prefix stripping proved); protected, payload/ciphertext and signature/tag come back byte for byte; "
          "a COSE_Sign1 / COSE_Mac0 produced with default headers verifies under any verifier correct for the signer and yields the original payload, for every payload, external data, key and unprotected map. "
          "The model is tied to the library by byte-exact produce + consume correspondence over 6 kinds x 24 algorithms x 3 tag forms",
